@@ -156,6 +156,25 @@ theorem at_least_two (n : Nat) (p e : Rat) (row : List Rat) (s : CurveScript)
 example : 2 ≤ ((sparseRowPure 0 0 [5, 6, 7] ⟨0, [0, 0, 0], (1, 1)⟩).filter Option.isSome).length :=
   at_least_two 3 0 0 _ _ (by omega) rfl rfl (by decide) (by decide)
 
+/-- the same under the weaker hypothesis the successful run provides (`curveFits`: the fallback
+draws are only constrained when the fallback is taken) -/
+theorem at_least_two_of_fits (n : Nat) (p e : Rat) (row : List Rat) (s : CurveScript)
+    (hn : 2 ≤ n) (hf : curveFits n p e row s) :
+    2 ≤ ((sparseRowPure p e row s).filter Option.isSome).length := by
+  obtain ⟨hm, hrow, hfb⟩ := hf
+  unfold sparseRowPure
+  rw [count_kept _ _ (by rw [finalMask_length, hm, hrow])]
+  unfold finalMask
+  by_cases hc : countTrue (maskOf (percOf p e s.u) s.m) < 2
+  · obtain ⟨_, ha, hb⟩ := hfb hc
+    simp only [hc, if_true]
+    obtain ⟨h1, h2⟩ := pairIdx_lt ha hb
+    have hl : (maskOf (percOf p e s.u) s.m).length = n := by rw [maskOf_length, hm]
+    have := two_le_count_setPair (m := maskOf (percOf p e s.u) s.m) (i := (pairIdx s.pair).1) (j := (pairIdx s.pair).2)
+      (by omega) (by omega) (pairIdx_ne s.pair)
+    simpa using this
+  · simp only [hc, if_false]; omega
+
 /-- The fallback of the tree before the repair (`choice(arange(n), 2)` *with* replacement) does
 not guarantee two samples: the two draws may coincide.  This is what the check reports on the
 unrepaired tree (`fixed: property=C20 … a single retained sample`). -/
@@ -222,6 +241,89 @@ theorem sparsify_rejects_2d (p e : Rat) (ss : List (List CurveScript)) (sim : Si
 
 example : dimTooLarge (.uni ⟨[[0, 1], [0, 1]], [[1, 2, 3, 4]]⟩) = true := by decide
 
+/-! ### multivariate and 2-D data
+
+`Comp` carries one grid per input dimension and the curves flattened row-major, so every statement
+above holds verbatim for 2-D components (`nPoints` = product of the dimensions).  The theorems
+below spell out the multivariate case: every component is treated like a univariate dataset, with
+its own draws. -/
+
+/-- the components of a dataset (one for univariate data) -/
+def comps {C : Type} : Data C → List C
+  | .uni c => [c]
+  | .multi cs => cs
+
+/-- Noise, multivariate / 2-D: component `q` of the noisy data is component `q` of the data plus
+`r` times the `q`-th array of draws, on the same grid(s). -/
+theorem noise_every_component (r : Rat) (zs : List (List (List Rat))) (d : Data Comp) (hf : noiseFits zs d)
+    (q : Nat) (c : Comp) (z : List (List Rat)) (hc : (comps d)[q]? = some c) (hz : zs[q]? = some z) :
+    (comps (noisePure r zs d))[q]? = some ⟨c.grid, addScaled r c.vals z⟩ ∧ sameShape c.vals z = true := by
+  cases d with
+  | uni c0 =>
+    obtain ⟨z0, rfl, hs⟩ := hf
+    cases q with
+    | zero =>
+      simp only [comps, List.getElem?_cons_zero, Option.some.injEq] at hc hz
+      subst hc; subst hz
+      exact ⟨by simp [comps, noisePure, noiseCompPure], hs⟩
+    | succ q => simp [comps] at hc
+  | multi cs =>
+    obtain ⟨_, hall⟩ := hf
+    simp only [comps] at hc
+    refine ⟨?_, hall q c z hc hz⟩
+    simp [comps, noisePure, List.getElem?_zipWith, hc, hz, noiseCompPure]
+
+/-- … hence entry `(i, j)` (row-major position `j` for 2-D) of EVERY component differs from the
+source by `r` times the draw at the same place -/
+theorem noise_difference_every_component (r : Rat) (zs : List (List (List Rat))) (d : Data Comp)
+    (hf : noiseFits zs d) (q i j : Nat) (c : Comp) (z : List (List Rat)) (x w : Rat)
+    (hc : (comps d)[q]? = some c) (hz : zs[q]? = some z)
+    (hx : entry c.vals i j = some x) (hw : entry z i j = some w) :
+    ∃ c', (comps (noisePure r zs d))[q]? = some c' ∧ c'.grid = c.grid ∧ entry c'.vals i j = some (x + r * w) :=
+  ⟨_, (noise_every_component r zs d hf q c z hc hz).1, rfl, entry_addScaled r c.vals z i j x w hx hw⟩
+
+/-- non-vacuity on a 2-D component (2 × 2 grid, one image flattened row-major) -/
+example : ∃ c', (comps (noisePure (1/2) [[[0, 0, 0, -2]]] (.uni ⟨[[0, 1], [0, 1]], [[1, 2, 3, 4]]⟩)))[0]? = some c' ∧
+    c'.grid = [[0, 1], [0, 1]] ∧ entry c'.vals 0 3 = some ((4 : Rat) + 1/2 * (-2)) :=
+  noise_difference_every_component (1/2) [[[0, 0, 0, -2]]] (.uni ⟨[[0, 1], [0, 1]], [[1, 2, 3, 4]]⟩)
+    ⟨[[0, 0, 0, -2]], rfl, by decide⟩ 0 0 3 ⟨[[0, 1], [0, 1]], [[1, 2, 3, 4]]⟩ [[0, 0, 0, -2]] 4 (-2) rfl rfl rfl rfl
+
+/-- Sparsification, multivariate / mixed 1-D–2-D: component `q` of the sparse data is the
+sparsification of component `q` with its own draws, on the same grid(s). -/
+theorem sparsify_every_component (p e : Rat) (sss : List (List CurveScript)) (d : Data Comp)
+    (hf : sparseFits p e sss d) (q : Nat) (c : Comp) (ss : List CurveScript)
+    (hc : (comps d)[q]? = some c) (hs : sss[q]? = some ss) :
+    (comps (sparsePure p e sss d))[q]? = some (sparseCompPure p e c ss) ∧ compFits p e c ss := by
+  cases d with
+  | uni c0 =>
+    obtain ⟨s0, rfl, hfit⟩ := hf
+    cases q with
+    | zero =>
+      simp only [comps, List.getElem?_cons_zero, Option.some.injEq] at hc hs
+      subst hc; subst hs
+      exact ⟨by simp [comps, sparsePure], hfit⟩
+    | succ q => simp [comps] at hc
+  | multi cs =>
+    obtain ⟨_, hall⟩ := hf
+    simp only [comps] at hc
+    refine ⟨?_, hall q c ss hc hs⟩
+    simp [comps, sparsePure, List.getElem?_zipWith, hc, hs]
+
+/-- Clause "at least two samples", tied to the operation itself: whenever `sparsify` succeeds —
+univariate or multivariate, 1-D, 2-D or mixed, any schedule — every curve of every component
+with at least two sampling points keeps at least two samples. -/
+theorem at_least_two_after_sparsify (p e : Rat) (sss : List (List CurveScript)) (sim : Sim) (f : Option Nat)
+    (st' : St) (h : run (sparsify false p e sss) sim f = (.ok (), st')) :
+    ∃ d, sim.data = some d ∧ st'.sim.sparse = some (sparsePure p e sss d) ∧
+      ∀ (q : Nat) (c : Comp) (ss : List CurveScript), (comps d)[q]? = some c → sss[q]? = some ss → 2 ≤ c.nPoints →
+        ∀ (i : Nat) (row : List Rat) (s : CurveScript), c.vals[i]? = some row → ss[i]? = some s →
+          2 ≤ ((sparseRowPure p e row s).filter Option.isSome).length := by
+  obtain ⟨d, hd, _, hfit, hst⟩ := sparsify_spec p e sss sim f st' h
+  refine ⟨d, hd, by rw [hst], ?_⟩
+  intro q c ss hc hs hn i row s hrow hsc
+  obtain ⟨_, _, hall⟩ := sparsify_every_component p e sss d hfit q c ss hc hs
+  exact at_least_two_of_fits c.nPoints p e row s hn (hall i row s hrow hsc)
+
 /-! ### the combined operation -/
 
 /-- Clause "the combined operation sparsifies the noisy curves": whenever
@@ -283,6 +385,38 @@ theorem data_restored_every_fault_point (repl : Bool) (r : Rat) (zs : List (List
     (ss : List (List CurveScript)) (sim : Sim) (k : Nat) :
     (run (combined repl r zs p e ss) sim (some k)).2.sim.data = sim.data :=
   data_restored repl r zs p e ss _
+
+/-- A failure is transparent for what follows.  Let a first `add_noise_and_sparsify` end in ANY
+way (success, natural failure, fault injected anywhere; any parameters, either fallback).  If a
+second call then succeeds, the simulator ends in exactly the state that the clean data determine:
+`data` = the original clean data `d`, `noisy` = noise(`d`), `sparse` = sparsify(noise(`d`)) —
+nothing of the failed call is left in what the second call produces. -/
+theorem failure_is_transparent (repl₁ : Bool) (r₁ : Rat) (zs₁ : List (List (List Rat))) (p₁ e₁ : Rat)
+    (ss₁ : List (List CurveScript)) (f₁ : Option Nat)
+    (r : Rat) (zs : List (List (List Rat))) (p e : Rat) (ss : List (List CurveScript)) (f₂ : Option Nat)
+    (sim : Sim) (st₂ : St)
+    (h : run (combined false r zs p e ss) (run (combined repl₁ r₁ zs₁ p₁ e₁ ss₁) sim f₁).2.sim f₂ = (.ok (), st₂)) :
+    ∃ d, sim.data = some d ∧
+      st₂.sim = { data := some d, noisy := some (noisePure r zs d), sparse := some (sparsePure p e ss (noisePure r zs d)) } := by
+  obtain ⟨d, hd, hst⟩ := combined_is_sparsified_noisy r zs p e ss _ f₂ st₂ h
+  have hres : (run (combined repl₁ r₁ zs₁ p₁ e₁ ss₁) sim f₁).2.sim.data = sim.data := by
+    unfold run; exact data_restored repl₁ r₁ zs₁ p₁ e₁ ss₁ _
+  exact ⟨d, by rw [← hres]; exact hd, hst⟩
+
+/-- … so the second call after a failed one ends exactly like the same call on a fresh simulator
+holding the same clean data (whenever both succeed) -/
+theorem second_call_like_fresh (repl₁ : Bool) (r₁ : Rat) (zs₁ : List (List (List Rat))) (p₁ e₁ : Rat)
+    (ss₁ : List (List CurveScript)) (f₁ : Option Nat)
+    (r : Rat) (zs : List (List (List Rat))) (p e : Rat) (ss : List (List CurveScript)) (f₂ f₃ : Option Nat)
+    (sim : Sim) (st₂ st₃ : St)
+    (h₂ : run (combined false r zs p e ss) (run (combined repl₁ r₁ zs₁ p₁ e₁ ss₁) sim f₁).2.sim f₂ = (.ok (), st₂))
+    (h₃ : run (combined false r zs p e ss) { data := sim.data } f₃ = (.ok (), st₃)) :
+    st₂.sim = st₃.sim := by
+  obtain ⟨d, hd, e2⟩ := failure_is_transparent repl₁ r₁ zs₁ p₁ e₁ ss₁ f₁ r zs p e ss f₂ sim st₂ h₂
+  obtain ⟨d', hd', e3⟩ := combined_is_sparsified_noisy r zs p e ss _ f₃ st₃ h₃
+  simp only [hd, Option.some.injEq] at hd'
+  subst hd'
+  rw [e2, e3]
 
 /-- Faults only come from the schedule: a run without scheduled fault never ends with the injected
 error, for each of the three operations — every failure of such a run is a natural one (no data,
